@@ -318,7 +318,10 @@ void UtilContext::print8(const char *token)
   if (get_range(token, &start, &end) == -1) { return; }
   if (start >= end) { end = start + 128; }
 
-  while (start < end)
+  // The range can end at the top of the 32 bit address space.
+  uint32_t count = (end > start) ? end - start : 0 - start;
+
+  for (; count != 0; count--)
   {
     if ((ptr & 0x0f) == 0)
     {
@@ -367,7 +370,10 @@ void UtilContext::print16(const char *token)
     return;
   }
 
-  while (start < end)
+  // The range can end at the top of the 32 bit address space.
+  uint32_t count = (end > start) ? end - start : 0 - start;
+
+  for (count = (count + 1) / 2; count != 0; count--)
   {
     if ((ptr & 0x0f) == 0)
     {
@@ -431,7 +437,10 @@ void UtilContext::print32(const char *token)
     return;
   }
 
-  while (start < end)
+  // The range can end at the top of the 32 bit address space.
+  uint32_t count = (end > start) ? end - start : 0 - start;
+
+  for (count = (count + 3) / 4; count != 0; count--)
   {
     if ((ptr & 0x07) == 0)
     {
